@@ -20,7 +20,8 @@ SKIPPED: list = []
 
 def run_gen(spec: dict, trace_path: Path, *, kill_at: int | None = None, shim_kill: int | None = None,
             shim_log: Path | None = None, watch: str | None = None, timeout: int = 900,
-            n_devices: int = 1, maxarr: int = 0, kill_after: float | None = None, fs_delay_us: int = 0):
+            n_devices: int = 1, maxarr: int = 0, kill_after: float | None = None, fs_delay_us: int = 0,
+            cwd: str | None = None):
     """One OS process generation.  Returns (returncode, stderr tail)."""
     spec_path = trace_path.with_suffix(".spec.json")
     spec_path.write_text(json.dumps(spec))
@@ -41,7 +42,7 @@ def run_gen(spec: dict, trace_path: Path, *, kill_at: int | None = None, shim_ki
         import signal
         import time
         proc = subprocess.Popen(cmd, env=C.child_env(n_devices, extra), stdout=subprocess.DEVNULL,
-                                stderr=subprocess.PIPE, text=True, cwd=str(C.VERIF))
+                                stderr=subprocess.PIPE, text=True, cwd=cwd or str(C.VERIF))
         t0 = time.time()
         while proc.poll() is None and time.time() - t0 < timeout:
             started = trace_path.exists() and b"save_call" in trace_path.read_bytes()
@@ -58,7 +59,7 @@ def run_gen(spec: dict, trace_path: Path, *, kill_at: int | None = None, shim_ki
             _, err = proc.communicate()
         return proc.returncode, (err or "")[-1500:]
     p = subprocess.run(cmd, env=C.child_env(n_devices, extra), capture_output=True, text=True,
-                       timeout=timeout, cwd=str(C.VERIF))
+                       timeout=timeout, cwd=cwd or str(C.VERIF))
     return p.returncode, p.stderr[-1500:]
 
 
@@ -110,6 +111,13 @@ class DirMap(dict):
         if not key:
             return default
         return super().get(os.path.normpath(str(key)), default)
+
+    def slot(self, key):
+        """Number a directory the scenario did not name (default directories): in order of first appearance."""
+        k = os.path.normpath(str(key))
+        if k not in self:
+            self[k] = min(2, len(self) + 1)
+        return self[k]
 
 
 def read_events(path: Path):
@@ -287,7 +295,7 @@ def build_trace(sc: dict, gens: list, ref: Reference):
         first_listing = True
         waited = False
         pending = False      # an asynchronous save may still be in flight in THIS process
-        op_restore = next((o for o in g["ops"] if o["op"] in ("restore", "load")), None)
+        op_restore = next((o for o in g["ops"] if o["op"] in ("restore", "load", "load_same")), None)
         for idx, ev in enumerate(events):
             st = ev.get("state") or {}
             name = ev["event"]
@@ -300,6 +308,8 @@ def build_trace(sc: dict, gens: list, ref: Reference):
             if name == "x_new":
                 rec["e"] = "new"
                 orig_cfg = norm_config(ev.get("config"))
+                if ev.get("ckpt_dir"):
+                    rec["dir"] = dirs.slot(ev["ckpt_dir"]) if sc.get("default_dir") else dirs.get(ev["ckpt_dir"], 1)
             elif name == "solve_begin":
                 rec["e"], rec["k"] = "begin", ev["max_iterations"]
                 sweeps_in_call, k_call, conv_in_call = 0, ev["max_iterations"], False
@@ -340,6 +350,9 @@ def build_trace(sc: dict, gens: list, ref: Reference):
                 first_listing = False
                 if "unchanged" in ev:
                     rec["unchanged"] = ev["unchanged"]
+            elif name == "x_copy":
+                rec["e"] = "copy"
+                rec["src"], rec["dir"] = dirs.get(ev["src"], 1), dirs.get(ev["dst"], 2)
             elif name == "x_restore_ok":
                 rec["e"] = "restore_ok"
                 rec["inflight"] = pending
@@ -395,7 +408,7 @@ def run_scenario(sc: dict, workdir: Path):
     if sc.get("dirstyle") == "space_slash":
         A, B = str(base / "ckpt A dir") + "/", str(base / "ckpt B dir") + "//"
     sc = dict(sc)
-    sc["dirs"] = DirMap({A: 1, B: 2})
+    sc["dirs"] = DirMap({} if sc.get("default_dir") else {A: 1, B: 2})
     gens_out = []
     kw = dict(sc["solver_kw"])
     if sc["freq"] > 0 or sc.get("always_ckpt_args"):
@@ -403,6 +416,10 @@ def run_scenario(sc: dict, workdir: Path):
                    "enable_async_checkpointing": sc["isasync"]})
     else:
         kw.update({"checkpoint_dir": A, "checkpoint_frequency": 0})
+    if sc.get("default_dir"):
+        # checkpoint_dir=None: the solver makes up checkpoints/<problem>/<date>/<time>/ under the working directory
+        # (the scenario's scratch directory); directories are numbered in order of first appearance
+        kw.pop("checkpoint_dir", None)
     prev_digest = None
     for gi, g in enumerate(sc["gens"]):
         ops = json.loads(json.dumps(g["ops"]).replace("@A", A).replace("@B", B))
@@ -421,7 +438,8 @@ def run_scenario(sc: dict, workdir: Path):
         rc, err = run_gen(spec, tr, kill_at=g.get("kill_at"), shim_kill=g.get("shim_kill"),
                           shim_log=(base / f"gen{gi}.shim") if g.get("shim_kill") is not None or g.get("shim_log") or sc.get("shim_log") else None,
                           watch=A, n_devices=g.get("n_devices", 1), maxarr=100000 if sc.get("rtol") else 0,
-                          kill_after=g.get("kill_after"), fs_delay_us=sc.get("fs_delay_us", 0))
+                          kill_after=g.get("kill_after"), fs_delay_us=sc.get("fs_delay_us", 0),
+                          cwd=str(base) if sc.get("default_dir") else None)
         events = read_events(tr)
         killed = rc == -9
         if rc not in (0, -9):
